@@ -38,6 +38,18 @@ def jobs(tier):
             cfg = dict(c01._cfg(n, d, fc, sc, k0, mode))
             out.append({"cfg": cfg, "hists": session_histories(), "oracles": ["selfdesc"],
                         "label": "sessions %d/%d %s" % (n, d, mode), "opts": {"regen": True}})
+    # session start timestamps at realistic rates: first sample just before / on / after a whole second
+    for (n, d) in U.FP_RATES:
+        for T in (1500000000, 1700000000, 4102444799):
+            base = -((-T * n) // d)  # first sample at or after second T
+            for delta in (-3, -1, 0, 1):
+                k0 = base + delta
+                fc = 1000
+                if n * fc < d * 1000:
+                    continue
+                cfg = dict(rf.Cfg(n=n, d=d, fc=fc, sc=3600, start=k0, cont=False))
+                out.append({"cfg": cfg, "hists": [[("w", 0, 2)]], "oracles": ["selfdesc"],
+                            "label": "session start %d/%d T=%d%+d" % (n, d, T, delta), "opts": {"regen": False}})
     return out
 
 
@@ -53,7 +65,7 @@ def main(tier):
               "h5py: index rules, 15 duplicated attributes == drf_properties.h5 == configuration, uuid/sequence/"
               "init_utc per session; drf_properties.h5 is regenerated from every single file (scratch channel with only "
               "that file) and on the full channel (delete, recreate, reader bounds/properties/full read identical)."),
-        assumptions=["init_utc_timestamp is only required to be within 1 s of floor(start*d/n) (exactness is not in the statement)",
+        assumptions=["init_utc_timestamp is compared with floor(start*d/n) exactly (the unchanged tree satisfies this on every explored configuration)",
                      "computer_time is wall-clock and is only required to be present"],
     )
     stage.activate()
